@@ -58,10 +58,44 @@ def job_retention(ctx, rule):
                 w.loc(w.line), detail=str(kinds), fail="the set of places where the action worker forgets jobs changed: %s" % kinds)
     # the gc list is produced by a filter_map closure that yields the id exactly when the job is dead
     sel = [c for c in facts.descendants(w) if c.kind == "closure" and any(t.callee.is_("Job::is_dead") for _, t in c.calls())]
-    cl = ctx.anchor_one(rule, "gc selection closure", sel)
+    gc_loops = []
+    if not sel:
+        # the selection spelled as a loop: `for (id, job) in &jobs { if job.is_dead() { gc.push(*id) } }`
+        for m_ in thir.find(root, "match"):
+            if m_.get("src") == "ForLoopDesugar":
+                inner_ = thir.peel(m_["e"])
+                if inner_.get("k") == "call" and inner_.get("a") and pathx.desc(inner_["a"][0]).lstrip("^") == "jobs" \
+                        and any(strip_generics(c_).endswith("Job::is_dead") for c_, _ in thir.calls_in(m_)):
+                    gc_loops.append(m_)
+    if gc_loops:
+        bad = []
+        n_dead = 0
+        its = set()
+        for q in pathx.Enum(interesting=lambda d_: strip_generics(d_).endswith(("Vec::push", "Job::is_dead"))).paths(gc_loops[0]):
+            for e in q.ev:
+                if e[0] == "loop":
+                    its |= set(e[1])
+        for it in its:
+            dead = None
+            for e in it:
+                if e[0] == "branch":
+                    if implies(e[1], e[2], "Job::is_dead(job)", True):
+                        dead = True
+                    elif implies(e[1], e[2], "Job::is_dead(job)", False):
+                        dead = False
+            pushes = [[pathx.desc(a).lstrip("^") for a in e[2]["a"]] for e in it if e[0] == "call" and strip_generics(e[1]).endswith("Vec::push")]
+            if pushes and (dead is not True or pushes != [["gc", "id"]]):
+                bad.append("a job not known to be dead is selected: " + pathx.show_events(it))
+            if pushes:
+                n_dead += 1
+        ctx.require(len(gc_loops) == 1 and not bad and n_dead >= 1, rule, "gc-selects-dead-only", "the gc loop selects a job's id only under Job::is_dead(job)", w.loc(gc_loops[0]["l"]),
+                    detail="; ".join(bad)[:400], fail="the action worker garbage-collects jobs that are still alive: their handle is dropped after the action, which "
+                    "ends the job task and kills the running command; the next change finds no job")
+        sel = None
+    cl = ctx.anchor_one(rule, "gc selection closure", sel) if sel is not None else None
     bad = []
     n_dead = 0
-    for q in pathx.Enum().paths(thir.root(cl)):
+    for q in (pathx.Enum().paths(thir.root(cl)) if cl is not None else []):
         dead = None
         for e in q.ev:
             if e[0] == "branch":
@@ -74,7 +108,8 @@ def job_retention(ctx, rule):
             bad.append("a job not known to be dead is selected: " + pathx.show_events(q.ev))
         if some:
             n_dead += 1
-    ctx.require(not bad and n_dead >= 1, rule, "gc-selects-dead-only", "the gc closure yields a job's id only under Job::is_dead(job)", cl.loc(cl.line),
+    if cl is not None:
+      ctx.require(not bad and n_dead >= 1, rule, "gc-selects-dead-only", "the gc closure yields a job's id only under Job::is_dead(job)", cl.loc(cl.line),
                 detail="; ".join(bad)[:400], fail="the action worker garbage-collects jobs that are still alive: their handle is dropped after the action, which "
                 "ends the job task and kills the running command; the next change finds no job")
     for k, n in removers:
